@@ -816,6 +816,21 @@ func (e *Env) evalCall(n *ast.CallExpr) Val {
 		return boolVal(Select(e.st.heapGet("Alloc", ArrSort(SInt, SBool)), arg(0).C[0]))
 	case "closed":
 		return boolVal(Select(e.st.heapGet("ChClosed", ArrSort(SInt, SBool)), arg(0).C[0]))
+	case "values":
+		// values(h, key): h.Values(key) - the value slice under the canonical key, nil when absent
+		h, k := arg(0), arg(1)
+		mt, ok := h.Typ.Underlying().(*types.Map)
+		if !ok {
+			e.fail("values(h, key): h is not a header map")
+		}
+		ck := e.st.strFn("canon", k.T())
+		has := And(Ne(h.T(), IntLit(0)), e.st.mapHas(h.T(), ck, mt))
+		vs := e.st.mapGet(h.T(), ck, mt)
+		out := Val{Typ: mt.Elem()}
+		for i := range vs.C {
+			out.C = append(out.C, Ite(has, vs.C[i], IntLit(0)))
+		}
+		return out
 	case "ifaceStr":
 		// ifaceStr(x): the string boxed in interface value x
 		tag := e.x.prog.typeTag(types.Typ[types.String])
